@@ -77,7 +77,7 @@ def NoUbStmt (cfg : Cfg) : Prop :=
 
 theorem no_ub : NoUbStmt Cfg.repaired := by
   intro own beh hb fuel ops hops w hc
-  have := execOps_good own beh hb fuel ops St.init hops Top.init
+  have := execOps_good own beh hb fuel ops St.init hops Top.init (RefOk.init own)
   rw [hc] at this
   exact this
 
@@ -99,7 +99,7 @@ def LiveIdsUniqueStmt (cfg : Cfg) : Prop :=
 
 theorem live_ids_unique : LiveIdsUniqueStmt Cfg.repaired := by
   intro own beh hb fuel ops st hops hr hnd hal b1 h1 b2 h2 hl heq
-  have := execOps_good own beh hb fuel ops St.init hops Top.init
+  have := execOps_good own beh hb fuel ops St.init hops Top.init (RefOk.init own)
   rw [hr] at this
   have hinv := (this.2 hnd hal).1.1
   have hk := hinv.idsUnique b1 h1 b2 h2 hl heq
@@ -118,7 +118,7 @@ def BindFreshStmt (cfg : Cfg) : Prop :=
 
 theorem bind_returns_fresh_id : BindFreshStmt Cfg.repaired := by
   intro own beh hb fuel ops st hops hr post pre k id ev first fl hsplit
-  have := execOps_good own beh hb fuel ops St.init hops Top.init
+  have := execOps_good own beh hb fuel ops St.init hops Top.init (RefOk.init own)
   rw [hr] at this
   have ht := this.1
   rw [hsplit] at ht
@@ -135,7 +135,7 @@ def OneshotStmt (cfg : Cfg) : Prop :=
 
 theorem oneshot_at_most_once : OneshotStmt Cfg.repaired := by
   intro own beh hb fuel ops st hops hr k fl hbound ho
-  have := execOps_good own beh hb fuel ops St.init hops Top.init
+  have := execOps_good own beh hb fuel ops St.init hops Top.init (RefOk.init own)
   rw [hr] at this
   exact Nat.le_trans (enterFire_le_fire this.1 k) (fire_le_one this.1 hbound ho)
 
@@ -149,7 +149,7 @@ def NoFireAfterUnbindStmt (cfg : Cfg) : Prop :=
 
 theorem no_fire_after_unbind : NoFireAfterUnbindStmt Cfg.repaired := by
   intro own beh hb fuel ops st hops hr post pre k hsplit
-  have := execOps_good own beh hb fuel ops St.init hops Top.init
+  have := execOps_good own beh hb fuel ops St.init hops Top.init (RefOk.init own)
   rw [hr] at this
   have ht := this.1
   rw [hsplit] at ht
@@ -166,7 +166,7 @@ def UnbindNotifyAtMostStmt (cfg : Cfg) : Prop :=
 
 theorem unbind_notify_at_most_once : UnbindNotifyAtMostStmt Cfg.repaired := by
   intro own beh hb fuel ops st hops hr k
-  have := execOps_good own beh hb fuel ops St.init hops Top.init
+  have := execOps_good own beh hb fuel ops St.init hops Top.init (RefOk.init own)
   rw [hr] at this
   exact ⟨notif_le_req this.1 k, req_le_one this.1 k, fun h n occ hm => notif_asked this.1 hm⟩
 
@@ -198,7 +198,7 @@ def DestroyNotifiesStmt (cfg : Cfg) : Prop :=
 
 theorem destroy_notifies : DestroyNotifiesStmt Cfg.repaired := by
   intro own beh hb fuel ops st st' hops hnd hr hal hd
-  have := execOps_good own beh hb fuel ops St.init hops Top.init
+  have := execOps_good own beh hb fuel ops St.init hops Top.init (RefOk.init own)
   rw [hr] at this
   have htop := (this.2 hnd hal).1
   have hfn : ∀ b ∈ st.list.reverse, b.fn ≠ none := fun b hb' =>
@@ -221,7 +221,7 @@ theorem destroy_notifies : DestroyNotifiesStmt Cfg.repaired := by
 theorem no_tombstone_between_operations (own : Owner) (beh : Behaviour) (hb : Safe own beh) (fuel : Nat) (ops : List Op) (st : St)
     (hops : ValidOps ops) (hnd : Op.destroy ∉ ops) (hr : Runs Cfg.repaired own beh fuel ops st) (hal : st.dead = false) :
     st.isIter = false ∧ ∀ b ∈ st.list, b.id ≠ TOMBSTONE := by
-  have := execOps_good own beh hb fuel ops St.init hops Top.init
+  have := execOps_good own beh hb fuel ops St.init hops Top.init (RefOk.init own)
   rw [hr] at this
   exact ⟨(this.2 hnd hal).1.2, (this.2 hnd hal).1.no_tombstones⟩
 
@@ -245,7 +245,7 @@ theorem no_tombstone_between_operations (own : Owner) (beh : Behaviour) (hb : Sa
     order (`fire_exactly_once`); and the chain is in binding order, `FIRST` binds ahead (`chain_in_binding_order`). -/
 def FireOrderStmt (cfg : Cfg) : Prop :=
   ∀ own beh, Safe own beh → ∀ fuel wf ev st st' r, Tickit.Bindings.Inv st → RefOk own st →
-    (own.holdsRef = true → (if st.userRef then 2 else 1) ≤ st.refs) → 1 ≤ st.nextOcc →
+    (own.holdsRef = true → b2n st.userRef + st.frozenRefs + 1 ≤ st.refs) → 1 ≤ st.nextOcc →
     exec cfg own beh fuel (.runEvent wf ev) st = .ok (st', r) →
     ∃ seg A, st'.log = Ev.occEnd st.nextOcc :: (seg ++ Ev.occBegin st.nextOcc ev wf :: st.log) ∧
       (keys st.list ++ A).Nodup ∧
@@ -267,15 +267,15 @@ theorem fire_order : FireOrderStmt Cfg.repaired := by
 theorem occurrence_numbers_positive (own : Owner) (beh : Behaviour) (hb : Safe own beh) (fuel : Nat) (ops : List Op) (st : St)
     (hops : ValidOps ops) (hnd : Op.destroy ∉ ops) (hr : Runs Cfg.repaired own beh fuel ops st) (hal : st.dead = false) :
     1 ≤ st.nextOcc := by
-  have := execOps_good own beh hb fuel ops St.init hops Top.init
+  have := execOps_good own beh hb fuel ops St.init hops Top.init (RefOk.init own)
   rw [hr] at this
-  exact (this.2 hnd hal).2
+  exact (this.2 hnd hal).2.1
 
 /-- Exactly once: a binding live for the event when the occurrence starts and still live for it when the occurrence
     ends (no handler having claimed the event) was delivered to exactly once in it. -/
 theorem fire_exactly_once (own : Owner) (beh : Behaviour) (hb : Safe own beh) (fuel : Nat) (wf : Bool) (ev : Int)
     (st st' : St) (r : Int) (h : Tickit.Bindings.Inv st) (hro : RefOk own st)
-    (hrefs : own.holdsRef = true → (if st.userRef then 2 else 1) ≤ st.refs) (hocc : 1 ≤ st.nextOcc)
+    (hrefs : own.holdsRef = true → b2n st.userRef + st.frozenRefs + 1 ≤ st.refs) (hocc : 1 ≤ st.nextOcc)
     (hex : exec Cfg.repaired own beh fuel (.runEvent wf ev) st = .ok (st', r)) :
     ∃ seg, st'.log = Ev.occEnd st.nextOcc :: (seg ++ Ev.occBegin st.nextOcc ev wf :: st.log) ∧
       ∀ b, evLive ev st.log b → evLive ev (seg ++ Ev.occBegin st.nextOcc ev wf :: st.log) b → ¬ (wf = true ∧ r ≠ 0) →
@@ -296,7 +296,7 @@ theorem fire_exactly_once (own : Owner) (beh : Behaviour) (hb : Safe own beh) (f
 theorem chain_in_binding_order (own : Owner) (beh : Behaviour) (hb : Safe own beh) (fuel : Nat) (ops : List Op) (st : St)
     (hops : ValidOps ops) (hnd : Op.destroy ∉ ops) (hr : Runs Cfg.repaired own beh fuel ops st) (hal : st.dead = false) :
     (keys st.list).Sublist (bindOrder st.log) ∧ (bindOrder st.log).Nodup := by
-  have := execOps_good own beh hb fuel ops St.init hops Top.init
+  have := execOps_good own beh hb fuel ops St.init hops Top.init (RefOk.init own)
   rw [hr] at this
   exact ⟨(this.2 hnd hal).1.1.order, (bindOrder_nodup this.1).1⟩
 
@@ -334,7 +334,7 @@ theorem owner_outlives_the_walk (own : Owner) (beh : Behaviour) (hb : Safe own b
     very occurrence), the sweep is done and every binding of the chain is live — and only then notified the remaining
     bindings that asked, in reverse chain order, each exactly once, and freed the chain. -/
 def DeferredDestroyStmt (cfg : Cfg) : Prop :=
-  ∀ own beh, own.holdsRef = true → ∀ fuel wf ev st st' r, Tickit.Bindings.Inv st → st.isIter = false →
+  ∀ own beh, own.holdsRef = true → ∀ fuel wf ev st st' r, Tickit.Bindings.Inv st → RefOk own st → st.isIter = false →
     exec cfg own beh fuel (.emitter wf ev) st = .ok (st', r) → st'.dead = true →
     ∃ st2 fuel', exec cfg own beh fuel' (.runEvent wf ev) { st with refs := st.refs + 1 } = .ok (st2, r) ∧
       Tickit.Bindings.Inv st2 ∧ st2.isIter = false ∧ (∀ b ∈ st2.list, b.id ≠ TOMBSTONE) ∧ st'.list = [] ∧
@@ -342,8 +342,8 @@ def DeferredDestroyStmt (cfg : Cfg) : Prop :=
         enters seg = (st2.list.reverse.filter asked).map (fun b => (b.key, EV_UNBIND + EV_DESTROY))
 
 theorem destroy_from_handler_notifies : DeferredDestroyStmt Cfg.repaired := by
-  intro own beh hh fuel wf ev st st' r h hni hex hd
-  exact emitter_destroys own beh (Or.inl hh) hh h hni hex hd
+  intro own beh hh fuel wf ev st st' r h hro hni hex hd
+  exact emitter_destroys own beh (Or.inl hh) hh h hro hni hex hd
 
 /-- Without the emitters' reference the hypothesis on the behaviours is needed: on a pen that holds none
     (the code before fix 4d40c98) a handler dropping the last reference frees the chain under the walker. -/
@@ -372,6 +372,44 @@ example :
      | .ok st => some (enters (st.log.take 4), (st.log.drop 4).head?)
      | _ => none) = some ([(1, 6), (0, 6)], some (Ev.occEnd 1)) := by decide
 
+/-! ### the pen as emitter: freeze..thaw regions (`tickit_pen_copy`, `copy_attr` of a colour, a colour description)
+
+The pen's change event is emitted by `changed()` — at once, or remembered while a region is frozen and delivered as one
+batched occurrence by the outermost `thaw()` — and by `tickit_pen_set_colour_attr`, at once.  The model's pen owner
+(`PenSt`, `Task.pen`, `Task.penRegion`) transcribes this; handler actions may run such operations on the owner pen
+(`Action.pen`).  All theorems above quantify over these behaviours too; the invariant `RefOk` carries, besides the
+reference accounting of open regions, that a change is remembered only inside a frozen region. -/
+
+/-- Re-applying a template the pen already satisfies (`tickit_pen_copy` with nothing to copy) is not an occurrence of the
+    change event: no handler is called, nothing is recorded, in any state the invariant allows — in particular from
+    inside a change handler that is itself being delivered the batched occurrence of an enclosing region (`thaw` clears
+    `changed` before it emits). -/
+theorem satisfied_template_is_no_occurrence (own : Owner) (beh : Behaviour) (fuel : Nat) (st st' : St) (r : Int) (t : Tmpl) (ow : Bool)
+    (h : Tickit.Bindings.Inv st) (hro : RefOk own st)
+    (hfg : loopCopiesFg st.pen t ow = false) (hbd : loopCopiesBold st.pen t ow = false)
+    (hex : exec Cfg.repaired own beh fuel (.penRegion (PenOp.copy t ow).body) st = .ok (st', r)) :
+    st'.log = st.log ∧ st'.dead = false ∧ st'.list = st.list ∧ st'.pen = st.pen := by
+  obtain ⟨a, b, c, d, _⟩ := region_nothing_to_copy own beh h hro hfg hbd hex
+  exact ⟨a, b, c, d⟩
+
+/-- A change is remembered only inside a frozen region: after any history `changed` is clear and no region is open. -/
+theorem no_change_pending_between_operations (own : Owner) (beh : Behaviour) (hb : Safe own beh) (fuel : Nat) (ops : List Op) (st : St)
+    (hops : ValidOps ops) (hnd : Op.destroy ∉ ops) (hr : Runs Cfg.repaired own beh fuel ops st) (hal : st.dead = false) :
+    st.pen.freeze = 0 → st.pen.changed = false := by
+  have := execOps_good own beh hb fuel ops St.init hops Top.init (RefOk.init own)
+  rw [hr] at this
+  exact (this.2 hnd hal).2.2.1.2
+
+/-- Not vacuous, and the scenario of the demonstration: handler 0 re-applies the satisfied template {bold} from inside
+    the batched occurrence that `tickit_pen_copy(pen, {bold}, overwrite)` delivers; each of the two handlers runs once
+    for that one change, and a second copy of the same template delivers nothing. -/
+example :
+    (match execOps Cfg.repaired penHoldingRef (fun h n => if h = 0 ∧ n = 0 then ⟨[.pen (.copy ⟨some true, none, none⟩ true)], 0⟩ else ⟨[], 0⟩) 60
+        [.bind 1 false plain 0, .bind 1 false plain 1, .pen (.copy ⟨some true, none, none⟩ true), .pen (.copy ⟨some true, none, none⟩ true)]
+        St.init with
+     | .ok st => some (st.log.countP (isEnterFire 0), st.log.countP (isEnterFire 1), st.pen.bold)
+     | _ => none) = some (1, 1, some true) := by decide
+
 /-! ### no binding is lost -/
 
 /-- After any history, the bindings the trace says are live — bound, not unbound since, not a delivered one-shot —
@@ -382,7 +420,7 @@ def LiveInChainStmt (cfg : Cfg) : Prop :=
 
 theorem live_bindings_are_in_chain : LiveInChainStmt Cfg.repaired := by
   intro own beh hb fuel ops st hops hr hnd hal k
-  have := execOps_good own beh hb fuel ops St.init hops Top.init
+  have := execOps_good own beh hb fuel ops St.init hops Top.init (RefOk.init own)
   rw [hr] at this
   exact ((this.2 hnd hal).1.1.liveIff k).symm
 
